@@ -10,6 +10,7 @@ import (
 	"fmt"
 	"math"
 	"os"
+	"sync"
 
 	"github.com/golang/geo/s1"
 	"github.com/golang/geo/s2"
@@ -311,6 +312,7 @@ func opShape(raw json.RawMessage, o *Out) {
 		t := flat()
 		c06CheckShape(o, &c, "", s2.LaxPolygonFromPoints(split(t)), t)
 	case "Polygon":
+		c06ManyLoopsOnce.Do(func() { c06ManyLoops(o) })
 		for _, variant := range []string{"", "/Oriented"} {
 			pts := c06Forest(c.VC, c.Depth)
 			loops := make([]*s2.Loop, len(pts))
@@ -365,6 +367,65 @@ func opShape(raw json.RawMessage, o *Out) {
 		}
 	default:
 		panic("unknown shape kind " + c.Kind)
+	}
+}
+
+var c06ManyLoopsOnce sync.Once
+
+// c06ManyLoops: the chain contract of Shapes.tla (Edge(e) = ChainEdge(ChainPosition(e)), chains contiguous,
+// chain i = the oriented edges of loop i) on polygons with more loops than the linear-search limit of
+// Polygon.Edge/ChainPosition (12), with loops of different lengths, before and after Invert (which
+// reorders the loops: the largest one comes first) and after a second Invert.
+func c06ManyLoops(o *Out) {
+	for _, n := range []int{13, 14, 20} {
+		vc, depth := make([]int, n), make([]int, n)
+		for i := range vc {
+			vc[i] = 3 + i%9
+			if i == n-1 {
+				vc[i] = 12 // the largest loop is the last one
+			}
+		}
+		p := s2.PolygonFromLoops(func() []*s2.Loop {
+			var ls []*s2.Loop
+			for _, lp := range c06Forest(vc, depth) {
+				ls = append(ls, s2.LoopFromPoints(lp))
+			}
+			return ls
+		}())
+		for step, name := range []string{"built", "Invert", "Invert;Invert"} {
+			if step > 0 {
+				p.Invert()
+			}
+			o.Count("many_loop_polygon_checks")
+			key := fmt.Sprintf("shapes/many-loops/%s", name)
+			e := 0
+			for i := 0; i < p.NumLoops(); i++ {
+				l := p.Loop(i)
+				if ch := p.Chain(i); ch.Start != e || ch.Length != l.NumVertices() {
+					o.Fail(key+"/Chain", "polygon of %d loops (%s): Chain(%d) = %+v, the loops before it have %d edges and loop %d has %d vertices", n, name, i, ch, e, i, l.NumVertices())
+					return
+				}
+				for j := 0; j < l.NumVertices(); j, e = j+1, e+1 {
+					want := s2.Edge{V0: l.OrientedVertex(j), V1: l.OrientedVertex(j + 1)}
+					if got := p.Edge(e); got != want {
+						o.Fail(key+"/Edge", "polygon of %d loops (%s): Edge(%d) is not edge %d of loop %d", n, name, e, j, i)
+						return
+					}
+					if got := p.ChainEdge(i, j); got != want {
+						o.Fail(key+"/ChainEdge", "polygon of %d loops (%s): ChainEdge(%d,%d) is not edge %d of loop %d", n, name, i, j, j, i)
+						return
+					}
+					if cp := p.ChainPosition(e); cp.ChainID != i || cp.Offset != j {
+						o.Fail(key+"/ChainPosition", "polygon of %d loops (%s): ChainPosition(%d) = %+v, want chain %d offset %d", n, name, e, cp, i, j)
+						return
+					}
+				}
+			}
+			if e != p.NumEdges() {
+				o.Fail(key+"/NumEdges", "polygon of %d loops (%s): NumEdges() = %d, its loops have %d vertices", n, name, p.NumEdges(), e)
+				return
+			}
+		}
 	}
 }
 
